@@ -36,7 +36,12 @@ def cases(tier):
     for via in ("grpc-transact", "rest-patch"):
         add(via, CI + 1, 2, badins=CI + 1, badhow="unknownns", maxk=4)
         add(via, CI + 1, CD + 1, maxk=10)
+    # delete by query: one request, one transaction, however many relationships match (more than any page or chunk size)
+    for via in ("rest-delete-query", "grpc-delete-query"):
+        add(via, 0, 3)
+        add(via, 0, 1100, maxk=30)
     if tier == "thorough":
+        add("rest-delete-query", 0, 2300, maxk=60)
         for via in vias:
             add(via, CI, CD)
             add(via, CI + 1, CD + 1)
@@ -53,6 +58,9 @@ def cases(tier):
 def events(case, stmts, ok, valid):
     nins = 0 if case["via"] == "manager-delete" else case["nins"]
     ndel = 0 if case["via"] == "manager-write" else case["ndel"]
+    byquery = case["via"].endswith("-delete-query")
+    if byquery:
+        ndel = 1      # ONE delete statement (its WHERE clause is the query), in one transaction
     ev = [{"ev": "req", "nins": nins, "ndel": ndel, "mapping": case["via"] in ("rest-patch", "grpc-transact"), "valid": valid}]
     for s in (stmts or []):
         k, t = s["kind"], s["table"]
@@ -67,7 +75,7 @@ def events(case, stmts, ok, valid):
         elif k == "INSERT" and t == "keto_relation_tuples":
             ev.append({"ev": "insert", "rows": s.get("rows", 0), "err": s["err"]})
         elif k == "DELETE" and t == "keto_relation_tuples":
-            ev.append({"ev": "delete", "ors": s.get("ors", 0), "err": s["err"]})
+            ev.append({"ev": "delete", "ors": 1 if byquery else s.get("ors", 0), "err": s["err"]})
         elif k == "SELECT":
             continue
         else:
